@@ -20,8 +20,8 @@ ENCODED = ["pylife.materiallaws.notch_approximation_law:Binned.__init__",
 STUBS = ["wrapped notch approximation law = uninterpreted functions stress(L), strain(S, L), dstress(dL), "
          "dstrain(dS, dL) applied element-wise (contract stub: the law itself is C06's subject); a second variant "
          "uses the identity law so that the selected class edge itself is observable"]
-ASSUMPTIONS = ["floats are modelled as reals; class edges are fl(k/n) * L_max with the float constant fl(k/n) the "
-               "table really contains (differs from k*L_max/n by <= 1 ulp)",
+ASSUMPTIONS = ["floats are modelled as reals; float constants such as k/n stand for the simplest rational that rounds to "
+               "them, so class edges are (k/n) * L_max (the table holds fl(k/n) * L_max, which differs by <= 1 ulp)",
                "L_max > 0", "multi-point: per-point maxima and loads are proportional with a factor from {1/2, 2, 3} "
                "(the documented use: one class look-up for the first node serves all nodes)"]
 OUTSIDE = "bin counts other than the enumerated ones; float rounding; non-proportional multi-point loads"
@@ -30,6 +30,7 @@ RULE = ("one evaluation = one explored path (position of the load relative to al
         "non-trivial = every path (each selects a class or raises)")
 LABELS = ["upper_edge", "range_error", "never_underestimates", "less_than_one_class", "series_equals_scalar",
           "multipoint_equals_single", "monotone"]
+RTOL = 1e-12      # witness comparison: fl(k/n)*L_max (floats) vs (k/n)*L_max (reals model)
 APIS = ("stress", "strain", "stress_secondary_branch", "strain_secondary_branch")
 
 
